@@ -13,6 +13,7 @@ wt=$(mktemp -d /tmp/seedwt.XXXX); rmdir "$wt"
 git -C /repo worktree add -q --detach "$wt" HEAD || exit 2
 trap 'git -C /repo worktree remove --force "$wt" 2>/dev/null; git -C /repo checkout -q -- . 2>/dev/null' EXIT
 res() { echo "[seedtest] $*"; }
+if [ -z "${SEEDTEST_CHECK_ONLY:-}" ]; then
 git -C "$wt" apply "$seed/patch.diff" || { res "patch does not apply"; exit 2; }
 ( cd "$wt/$mod" && go test -vet=off -count=1 ./... >/tmp/seedtest.$$.log 2>&1 ); rc=$?
 res "existing tests of module $mod with patch: rc=$rc"; [ $rc -ne 0 ] && grep -E "^(--- FAIL|FAIL)" /tmp/seedtest.$$.log
@@ -22,6 +23,7 @@ res "demo with patch: rc=$d1 (expected != 0)"
 git -C "$wt" apply -R "$seed/patch.diff"
 ( cd "$wt/$mod" && eval "$demo_cmd" >/tmp/seedtest.$$.demo2 2>&1 ); d2=$?
 res "demo without patch: rc=$d2 (expected 0)"; [ $d2 -ne 0 ] && tail -20 /tmp/seedtest.$$.demo2
+fi
 git -C /repo apply "$seed/patch.diff" || { res "patch does not apply to /repo"; exit 2; }
 for c in $checks; do
   out=$(cd /verif && ./check "$c" quick 2>&1); crc=$?
